@@ -5,7 +5,7 @@
    rgb_to_cmyk is a parameter [cmyk] of the model. *)
 From Coq Require Import List ZArith.
 From LJT Require Import gen.GenPnm model.Pnm model.Bmp proofs.PnmProofs proofs.PnmRoundtrip proofs.PnmTop proofs.PnmExamples
-  proofs.BmpProofs proofs.BmpRoundtrip proofs.BmpTop.
+  proofs.BmpProofs proofs.BmpRoundtrip proofs.BmpTop gen.GenImgPrec model.ImgEntry proofs.ImgEntryProofs.
 Import ListNotations.
 Local Open Scope Z_scope.
 
@@ -104,6 +104,23 @@ Theorem C18_bmp8_roundtrip : forall cmyk uncmyk t bottomup w h rows,
 Proof. exact bmp_roundtrip_top. Qed.
 Print Assumptions C18_bmp8_roundtrip.
 
+(* (6) entry point x format x precision (rules generated from jinit_read_*(), tj3LoadImage*(),
+   cjpeg main): whenever tj3LoadImage<W> gets as far as copying rows, the reader filled the
+   W-bit buffer the loader copies from, the data precision fits the sample type, and every
+   8-bit-only format (BMP) is only ever read by tj3LoadImage8; tj3LoadImage12/16 report an error *)
+Theorem C18_load_buffer_matches_entry_point : forall W req f dp, W = 8 \/ W = 12 \/ W = 16 ->
+  tj_load_dp W req f = Some dp ->
+  reader_fills f W = tj_reads W /\ 2 <= dp <= W /\ (f = FPnm \/ (f <> FPnm /\ dp = 8 /\ W = 8)).
+Proof. exact tj_buffer_type. Qed.
+Print Assumptions C18_load_buffer_matches_entry_point.
+
+(* the same for cjpeg -precision N: an accepted (format, N) reads rows from the buffer the
+   selected reader fills (BMP/GIF/Targa: N = 8 only; PPM: every N, through the N-bit variant) *)
+Theorem C18_cjpeg_buffer_matches_precision : forall f n, 2 <= n <= 16 -> cj_accepts f n = true ->
+  reader_fills f (cj_reader_width f n) = cj_reads n /\ n <= cj_reads n.
+Proof. exact cj_buffer_type. Qed.
+Print Assumptions C18_cjpeg_buffer_matches_precision.
+
 (* ---- non-vacuity ---- *)
 Example C18_ex_text_ok : bytes f_text /\ load_pnm cmyk_exact look_tbl 2 0 None false f_text = Ok (2, 1, TGray, [[1; 2]]).
 Proof. exact ex_text_ok. Qed.
@@ -140,3 +157,9 @@ Example C18_ex_bmp_roundtrip :
   load_bmp cmyk_exact 0 (Some TGray) true (save_bmp no_uncmyk TGray true 9 2 img8) = BOk (9, 2, TGray, img8) /\
   length (save_bmp no_uncmyk rgb false 3 2 img8) = 78%nat.
 Proof. exact ex_bmp_roundtrip. Qed.
+Example C18_ex_entry_points :
+  tj_load_dp 8 5 FPnm = Some 5 /\ tj_load_dp 8 12 FPnm = Some 8 /\ tj_load_dp 12 10 FPnm = Some 10 /\
+  tj_load_dp 16 2 FPnm = Some 16 /\ tj_load_dp 8 3 FBmp = Some 8 /\ tj_load_dp 12 12 FBmp = None /\
+  tj_load_dp 8 8 (tj_fmt 71) = None /\
+  cj_accepts FPnm 13 = true /\ cj_accepts FBmp 12 = false /\ cj_accepts FGif 8 = true /\ cj_accepts (cj_fmt true 1) 9 = false.
+Proof. exact ex_entry. Qed.
